@@ -3,8 +3,25 @@ from sx import plspec
 from . import common as C
 
 
+def _observe_atom(n, spec, inputs):
+    out = {"error": None}
+    try:
+        cls = plspec._item_class(n.puan) if spec["form"] == "subclass" else n.puan.variable
+        leaf = "q" if spec["form"] == "str" else cls("q", bounds=(inputs["env"]["lo_q"], inputs["env"]["hi_q"]))
+        neg = n.pg.Not(leaf)
+        if spec["chain"] == 2:
+            neg = n.pg.Not(neg)
+        v = neg.evaluate(dict(inputs["vals"]))
+        out["neg"] = [int(v.lower), int(v.upper)]
+    except Exception as e:    # noqa
+        out["error"] = "%s: %s" % (type(e).__name__, e)
+    return out
+
+
 def observe(spec, inputs):
     n = C.ns()
+    if spec.get("part") == "atom":
+        return _observe_atom(n, spec, inputs)
     env = inputs["env"]
     m0 = plspec.build(n, spec["model"], env)
     snap = C.snapshot(n, m0)
@@ -40,6 +57,12 @@ def _safe(snap, neg_parent=False):
 def judge(spec, inputs, out, ob):
     if out["error"] is not None:
         return True, "negate/evaluate raised on a validated model: " + out["error"]
+    if spec.get("part") == "atom":
+        holds = 1 if inputs["vals"]["q"] >= 1 else 0
+        want = 1 - holds if spec["chain"] == 1 else holds
+        if out["neg"] != [want, want]:
+            return True, "%sNot(q) evaluates to %s at q=%d (box %s); All(q) evaluates to %d" % ("Not " if spec["chain"] == 2 else "", out["neg"], inputs["vals"]["q"], inputs["env"], holds)
+        return False, ""
     snap = _tup(out["snap"])
     t = C.snap_eval(snap, inputs["vals"])
     bad = []
